@@ -37,7 +37,7 @@ def main():
     pl = plan(chk.tier)
     for s, nh, store, up in pl:
         ts = ",".join(map(str, s))
-        conds.append(Cond("vf.ch.h_engine", "check_lifecycle", f"lifecycle for epoch types INITIAL,{ts} (needs_history={nh}, {up} of 3 epochs configured up-front, others appended while sampling): "
+        conds.append(Cond("vf.ch.h_engine", "check_lifecycle_q" if chk.tier == "quick" else "check_lifecycle", f"lifecycle for epoch types INITIAL,{ts} (needs_history={nh}, {up} of 3 epochs configured up-front, others appended while sampling): "
                           "start / duration transitions with within-epoch time 0..d-1 and continuing global time / end / tune iff adaptation (with that epoch's recorded history on request) / "
                           "exactly one end_warmup immediately before the first posterior epoch",
                           timeout_s=600 if chk.tier == "quick" else 1200, env={"TYPES": ts, "NK": "2", "NH": nh, "STORE": str(store), "UPFRONT": str(up)}, signature=f"lifecycle:{ts}"))
@@ -45,7 +45,7 @@ def main():
     chk.functions += ["liesel.goose.engine.Engine.__init__/sample_all_epochs/sample_next_epoch/append_epoch/_start_epoch/_kernel_start_epoch/_sample_for_duration/_sample_many/_end_epoch/_tune_kernels/_end_warmup/_split_prng_key",
                       "liesel.goose.kernel_sequence.KernelSequence.*", "liesel.goose.epoch.EpochManager/EpochState", "liesel.goose.kernel.TransitionMixin.transition / TuningMixin.tune",
                       "liesel.goose.chain.EpochChainManager/ListEpochChain (history handed to tune)"]
-    chk.bounds += ["3 epochs after the initial one; durations <= 3 (last <= 4), thinning <= duration, chunk <= 3 dividing all durations: symbolic", "2 kernels; per-kernel needs_history, store_kernel_states and the number of epochs configured up-front (others appended one at a time after sampling started) enumerated per condition", "one representative chain (vmap = identity)"]
+    chk.bounds += ["3 epochs after the initial one; symbolic durations <= 2,2,3 (thorough: 3,3,4), thinning <= duration, chunk <= 2 (thorough 3) dividing all durations", "2 kernels; per-kernel needs_history, store_kernel_states and the number of epochs configured up-front (others appended one at a time after sampling started) enumerated per condition", "one representative chain (vmap = identity)"]
     chk.enumerated += [f"epoch types INITIAL,{','.join(map(str, s))} needs_history={nh} store_kernel_states={st} upfront={up}" for s, nh, st, up in pl]
     chk.assume("fake environment contracts: vmap(f)=f on one chain, jit(f)=f, lax.scan = loop + stacking, lax.cond = if, random.split = free-algebra key terms, expand_dims/concatenate on per-time cell lists, np.arange/% /== /mask indexing on integer lists",
                "what kernels that do not ask for history receive is left unconstrained when another kernel asks (the engine hands the same history to every kernel)")
